@@ -279,4 +279,195 @@ theorem concrete_leaf_required {c : Cls} {k : Text} {s : Schema}
   rw [kwv_required] at this
   exact this kvs rfl _ hin2
 
+/-! ### exact characterisation for a stand-alone class (no parents, no descendants) -/
+
+theorem mem_setKey_inv {α : Type} {k k' : Text} {v v' : α} {acc : List (Text × α)}
+    (h : (k, v) ∈ setKey k' v' acc) : (k = k' ∧ v = v') ∨ (k, v) ∈ acc := by
+  induction acc with
+  | nil => simp only [setKey, List.mem_singleton, Prod.mk.injEq] at h; exact Or.inl h
+  | cons a acc ih =>
+    obtain ⟨k2, v2⟩ := a
+    simp only [setKey] at h
+    split at h
+    · rcases List.mem_cons.mp h with h' | h'
+      · simp only [Prod.mk.injEq] at h'; exact Or.inl h'
+      · exact Or.inr (List.mem_cons_of_mem _ h')
+    · rcases List.mem_cons.mp h with h' | h'
+      · exact Or.inr (h' ▸ List.mem_cons_self)
+      · rcases ih h' with h'' | h''
+        · exact Or.inl h''
+        · exact Or.inr (List.mem_cons_of_mem _ h'')
+
+/-- every entry of the `properties` mapping stems from a property (or was there before) -/
+theorem defineProps_entries (ps : List Prp) : ∀ (acc res : List (Text × Schema)),
+    defineProps ps acc = .ok res → ∀ k s, (k, s) ∈ res →
+      (k, s) ∈ acc ∨ ∃ p ∈ ps, p.name = k ∧ defineProp p = .ok (some s) := by
+  induction ps with
+  | nil => intro acc res h k s hm; simp only [defineProps, Except.ok.injEq] at h; subst h; exact Or.inl hm
+  | cons q ps ih =>
+    intro acc res h k s hm
+    simp only [defineProps] at h
+    cases hq : defineProp q with
+    | error e => simp [hq] at h
+    | ok o =>
+      cases o with
+      | none =>
+        simp only [hq] at h
+        rcases ih _ _ h k s hm with h' | ⟨p, hp, hn, hd⟩
+        · exact Or.inl h'
+        · exact Or.inr ⟨p, List.mem_cons_of_mem _ hp, hn, hd⟩
+      | some sq =>
+        simp only [hq] at h
+        rcases ih _ _ h k s hm with h' | ⟨p, hp, hn, hd⟩
+        · rcases mem_setKey_inv h' with ⟨rfl, rfl⟩ | h''
+          · exact Or.inr ⟨q, List.mem_cons_self, rfl, hq⟩
+          · exact Or.inl h''
+        · exact Or.inr ⟨p, List.mem_cons_of_mem _ hp, hn, hd⟩
+
+theorem defineProp_own {p : Prp} {s : Schema} (hown : p.own = true) (h : defineProp p = .ok (some s)) :
+    defineType p.ty = .ok s := by
+  unfold defineProp at h
+  simp only [hown, if_true] at h
+  cases hd : defineType p.ty with
+  | error e => simp [hd] at h
+  | ok s' =>
+    simp only [hd, Except.ok.injEq] at h
+    split at h
+    · cases h
+    · simp only [Option.some.injEq] at h; rw [h]
+
+theorem mem_bodyKws {c : Cls} {P : List (Text × Schema)} {R : List Text} {kw : Kw} (hroot : c.inh = [])
+    (h : kw ∈ bodyKws c P R) : kw = .type .object ∨ kw = .properties P ∨ kw = .required R := by
+  cases P with
+  | nil => simp [bodyKws, hroot] at h; exact Or.inl h
+  | cons a as =>
+    cases R with
+    | nil => simp [bodyKws, hroot] at h; rcases h with h | h; exact Or.inl h; exact Or.inr (Or.inl h)
+    | cons r rs =>
+      simp [bodyKws, hroot] at h
+      rcases h with h | h | h
+      · exact Or.inl h
+      · exact Or.inr (Or.inl h)
+      · exact Or.inr (Or.inr h)
+
+/-- what a document of a stand-alone class must look like -/
+def StandaloneOK (c : Cls) (j : Json) : Prop :=
+  ∃ kvs, j = .obj kvs ∧
+    (∀ p ∈ c.props, p.optional = false → hasKey p.name kvs = true) ∧
+    (c.withModelType = true → lookup modelTypeKey kvs = some (.str c.mt)) ∧
+    (∀ p ∈ c.props, ∀ v, lookup p.name kvs = some v → Sat defs p.ty v)
+
+/-- **Exact characterisation (C11 and C12 together) for a stand-alone concrete class**: no parents,
+no concrete descendants, JSON property names unique and different from `modelType`.  The class
+definition accepts a JSON value iff it is an object that has every required member, carries the
+class's `modelType` (when the class has one), and whose member values satisfy shape and inferred
+constraints of their properties. -/
+theorem standalone_iff {c : Cls} {k : Text} {s : Schema} (h : concreteDefinition c = .ok (k, s))
+    (hleaf : c.cdesc = []) (hroot : c.inh = []) (hown : ∀ p ∈ c.props, p.own = true)
+    (hnd : (c.props.map (·.name)).Nodup) (hnm : ∀ p ∈ c.props, p.name ≠ modelTypeKey)
+    (j : Json) : Valid defs s j ↔ StandaloneOK defs c j := by
+  obtain ⟨props, hp, _, hs⟩ := concrete_leaf_shape h hleaf
+  have hdt : ∀ p ∈ c.props, ∃ sp, defineType p.ty = .ok sp ∧ (p.name, sp) ∈ props := by
+    intro p hpm
+    -- `_define_properties` succeeded, so `_define_type` succeeded on every own property
+    have : ∀ (ps : List Prp) (acc res : List (Text × Schema)), defineProps ps acc = .ok res →
+        p ∈ ps → ∃ sp, defineType p.ty = .ok sp := by
+      intro ps
+      induction ps with
+      | nil => intro _ _ _ hm; cases hm
+      | cons q qs ih =>
+        intro acc res hq hm
+        simp only [defineProps] at hq
+        cases hdq : defineProp q with
+        | error e => simp [hdq] at hq
+        | ok o =>
+          rcases List.mem_cons.mp hm with rfl | hm'
+          · unfold defineProp at hdq
+            simp only [hown p hpm, if_true] at hdq
+            cases hd : defineType p.ty with
+            | error e => simp [hd] at hdq
+            | ok sp => exact ⟨sp, rfl⟩
+          · cases o with
+            | none => simp only [hdq] at hq; exact ih _ _ hq hm'
+            | some sq => simp only [hdq] at hq; exact ih _ _ hq hm'
+    obtain ⟨sp, hsp⟩ := this c.props [] props hp hpm
+    exact ⟨sp, hsp, own_property_defined hp hnd hpm (hown p hpm) hsp⟩
+  have hir : inheritanceRefs c = [] := by simp [inheritanceRefs, hroot]
+  have hs' : s = .mk (bodyKws c
+      (if c.withModelType then setKey modelTypeKey (modelTypeConst c.mt) props else props)
+      (if c.withModelType ∧ !(c.inh.any (·.withModelType)) then requiredProps c ++ [modelTypeKey]
+        else requiredProps c)) := by
+    rw [hs, hir]; simp [wrapAllOf]
+  constructor
+  · intro hv
+    -- the object part
+    have hobj : ∃ kvs, j = .obj kvs := by
+      rw [hs'] at hv
+      rw [valid_iff_kws] at hv
+      have := hv (.type .object) (by simp [bodyKws, hroot])
+      rw [kwv_type] at this
+      cases j <;> simp [hasType] at this
+      exact ⟨_, rfl⟩
+    obtain ⟨kvs, rfl⟩ := hobj
+    refine ⟨kvs, rfl, ?_, ?_, ?_⟩
+    · intro p hpm hreq
+      obtain ⟨sp, hsp, _⟩ := hdt p hpm
+      exact concrete_leaf_required defs h hleaf hnd hpm (hown p hpm) hreq hsp hv
+    · intro hw
+      have hk := concrete_leaf_modelType_required defs h hleaf hw (by simp [hroot]) hv
+      unfold hasKey at hk
+      cases hl : lookup modelTypeKey kvs with
+      | none => simp [hl] at hk
+      | some v => rw [concrete_leaf_modelType_pinned defs h hleaf hw hv v hl]
+    · intro p hpm v hl
+      obtain ⟨sp, hsp, _⟩ := hdt p hpm
+      exact concrete_leaf_own_property defs h hleaf hnd hpm (hown p hpm) (hnm p hpm) hsp hv v hl
+  · rintro ⟨kvs, rfl, hreq, hmt, hsat⟩
+    rw [hs']
+    rw [valid_iff_kws]
+    intro kw hkw
+    rcases mem_bodyKws hroot hkw with rfl | rfl | rfl
+    · simp [hasType]
+    · -- `properties`
+      rw [kwv_properties]
+      intro kvs' hk' pe hpe v hl
+      cases hk'
+      have hent : pe ∈ props ∨ (c.withModelType = true ∧ pe = (modelTypeKey, modelTypeConst c.mt)) := by
+        obtain ⟨pk, psch⟩ := pe
+        split at hpe
+        · rename_i hw
+          rcases mem_setKey_inv hpe with ⟨rfl, rfl⟩ | h'
+          · exact Or.inr ⟨hw, rfl⟩
+          · exact Or.inl h'
+        · exact Or.inl hpe
+      rcases hent with hin | ⟨hw, rfl⟩
+      · obtain ⟨pk, psch⟩ := pe
+        rcases defineProps_entries c.props [] props hp pk psch hin with h' | ⟨p, hpm, hn, hd⟩
+        · cases h'
+        · have := defineProp_own (hown p hpm) hd
+          subst hn
+          exact (type_lemma defs p.ty psch this v).mpr (hsat p hpm v hl)
+      · simp only at hl
+        rw [hmt hw] at hl
+        cases hl
+        simp [modelTypeConst, valid_iff_kws]
+    · rw [kwv_required]
+      intro kvs' hk' key hkey
+      cases hk'
+      have : key ∈ requiredProps c ∨ (c.withModelType = true ∧ key = modelTypeKey) := by
+        split at hkey
+        · rename_i hw
+          rcases List.mem_append.mp hkey with h' | h'
+          · exact Or.inl h'
+          · exact Or.inr ⟨hw.1, by simpa using h'⟩
+        · exact Or.inl hkey
+      rcases this with h' | ⟨hw, rfl⟩
+      · simp only [requiredProps, List.mem_map, List.mem_filter] at h'
+        obtain ⟨p, ⟨hpm, hcond⟩, rfl⟩ := h'
+        have hopt : p.optional = false := by
+          have := (Bool.and_eq_true _ _ ▸ hcond).2
+          simpa using this
+        exact hreq p hpm hopt
+      · unfold hasKey; rw [hmt hw]; rfl
+
 end AasVerif.JsonSchema
